@@ -165,7 +165,10 @@ def run(ctx):
     import export_thms
     import ob_outbytes
     ctx.gen_tables.update(ob_outbytes.regen())      # Props/Export depends on the snaplen literal of run()
-    ctx.prove(["TLX.Props.C18"] + export_thms.MODULES)
+    import translate                 # decision-logic functions re-translated from the source and proved equal to the model
+    _tm, _tt = translate.wire(ctx, "C18")
+    ctx.prove(["TLX.Props.C18"] + export_thms.MODULES + _tm)
+    ctx.require_theorems(_tt)
     ctx.require_theorems([t for t in m1_mainloop.THEOREMS if t.startswith("TLX.Props.C18.")] + [
         "TLX.Props.Export.export_ignores_prior_state", "TLX.Props.Export.export_is_function"])
     import file_corr
